@@ -399,6 +399,17 @@ func hRepl(dir string) {
 	for sc := 0; sc < n; sc++ {
 		replScenario(out, newRand(int64(9500+sc)), sc)
 	}
+	// known finding K3 shown dynamically (thorough tier): tiny log RPC time-outs make proposals time out
+	// for the worker while they still commit; with a stale index read the next round re-applies them
+	if k3 := envInt("VERIF_K3_ATTEMPTS", 0); k3 > 0 {
+		ans := "converged"
+		for i := 0; i < k3 && ans == "converged"; i++ {
+			if replK3Attempt(time.Duration(5+i%5)*time.Millisecond, out) {
+				ans = "diverged"
+			}
+		}
+		out.Line("kf K3 dynamic", ans)
+	}
 	// known finding K3, identified by its call site: the worker decides what to ask the leader for from
 	// a local (non-linearizable) read of the recorded leader index
 	out.Line("kf K3 worker.tableState", workerIndexRead())
@@ -538,4 +549,84 @@ func bytesOf(b byte, n int) []byte {
 		out[i] = b
 	}
 	return out
+}
+
+// replK3Attempt: 600 toggling (non-idempotent) transactions on the leader, a follower whose workers
+// poll every 2 ms with the given log RPC time-out and 512-byte messages.  Reports whether the
+// follower, once its recorded index has reached the leader's last revision, holds different content.
+func replK3Attempt(logTimeout time.Duration, out *Out) bool {
+	leader := newEngine(engineOpts{maxInMem: 6 * 1024 * 1024})
+	defer leader.Close()
+	l, err := net.Listen("tcp", "127.0.0.1:0")
+	must(err)
+	srv := regattaserver.NewServer(l, zap.NewNop().Sugar())
+	regattapb.RegisterMetadataServer(srv, &regattaserver.MetadataServer{Tables: leader})
+	regattapb.RegisterSnapshotServer(srv, &regattaserver.SnapshotServer{Tables: leader})
+	regattapb.RegisterLogServer(srv, regattaserver.NewLogServer(leader, leader.LogReader, zap.NewNop(), 512))
+	go srv.Serve()
+	defer srv.Shutdown()
+	_, err = leader.CreateTable("t1")
+	must(err)
+	waitTable(leader, "t1")
+	q := storage.NewNotificationQueue()
+	go q.Run()
+	defer q.Close()
+	follower := newEngine(engineOpts{maxInMem: 6 * 1024 * 1024, applied: q.Notify})
+	defer follower.Close()
+	conn, err := grpc.NewClient(l.Addr().String(), grpc.WithTransportCredentials(insecure.NewCredentials()))
+	must(err)
+	defer conn.Close()
+	m := replication.NewManager(follower, q, conn, replication.Config{
+		ReconcileInterval: 50 * time.Millisecond,
+		Workers:           replication.WorkerConfig{PollInterval: 2 * time.Millisecond, LeaseInterval: 20 * time.Millisecond, LogRPCTimeout: logTimeout, SnapshotRPCTimeout: 10 * time.Second, MaxRecoveryInFlight: 1},
+	})
+	must(m.Start())
+	defer m.Close()
+	put := func(k, v string) *regattapb.RequestOp {
+		return &regattapb.RequestOp{Request: &regattapb.RequestOp_RequestPut{RequestPut: &regattapb.RequestOp_Put{Key: []byte(k), Value: []byte(v)}}}
+	}
+	del := func(k string) *regattapb.RequestOp {
+		return &regattapb.RequestOp{Request: &regattapb.RequestOp_RequestDeleteRange{RequestDeleteRange: &regattapb.RequestOp_DeleteRange{Key: []byte(k)}}}
+	}
+	var lastRev uint64
+	for i := 0; i < 600; i++ {
+		ctx, cancel := context.WithTimeout(context.Background(), 10*time.Second)
+		r, err := leader.Txn(ctx, &regattapb.TxnRequest{Table: []byte("t1"),
+			Compare: []*regattapb.Compare{{Key: []byte("flag")}},
+			Success: []*regattapb.RequestOp{del("flag"), put(fmt.Sprintf("a%04d", i), "S")},
+			Failure: []*regattapb.RequestOp{put("flag", "x"), put(fmt.Sprintf("a%04d", i), "F")}})
+		cancel()
+		if err == nil {
+			lastRev = r.Header.Revision
+		}
+		if i%3 == 0 {
+			time.Sleep(time.Millisecond)
+		}
+	}
+	reached := false
+	for i := 0; i < 500 && !reached; i++ {
+		if tb, err := follower.GetTable("t1"); err == nil {
+			ctx, cancel := context.WithTimeout(context.Background(), time.Second)
+			r, err := tb.LeaderIndex(ctx, true)
+			cancel()
+			reached = err == nil && r.Index >= lastRev
+		}
+		if !reached {
+			time.Sleep(20 * time.Millisecond)
+		}
+	}
+	out.Count("k3_attempts")
+	if !reached {
+		return false
+	}
+	lp, err1 := fullPairs(leader, "t1", true)
+	fp, err2 := fullPairs(follower, "t1", true)
+	if err1 != nil || err2 != nil {
+		return false
+	}
+	if pairsDigest(lp) != pairsDigest(fp) {
+		out.Count("k3_diverged")
+		return true
+	}
+	return false
 }
